@@ -293,6 +293,11 @@ def _first(col, ctx, np):
                 cmp('CenterOn(%s mean)' % mean.dtype, lambda: pr.CenterOn(mean=mean, precision=prec)(rows), [[float(v - F(float(m))) for v, m in zip(r, mean)] for r in ex])
         std = np.array([2, 4, 1, 8, 0.5, 16], dtype='float64')
         cmp('StandardizeOn', lambda: pr.StandardizeOn(mean=means[0], std=std, precision='float64')(rows), [[float((v - F(float(m))) / F(float(s))) for v, m, s in zip(r, means[0], std)] for r in ex], exact=False, tol=1e-9)
+        for mean in means[2:]:
+            # a mean stored in the traces' own integer type (e.g. the ADC mid-scale): the subtraction must not be done in that type
+            cmp('StandardizeOn(%s mean)' % mean.dtype, lambda: pr.StandardizeOn(mean=mean, std=std, precision='float64')(rows), [[float((v - F(float(m))) / F(float(s))) for v, m, s in zip(r, mean, std)] for r in ex], exact=False, tol=1e-9)
+            cmp('StandardizeOn(%s mean, batch std)' % mean.dtype, lambda: pr.StandardizeOn(mean=mean, precision='float64')(rows),
+                ((rows.astype('float64') - mean.astype('float64')) / rows.astype('float64').std(axis=0)) if np.all(rows.astype('float64').std(axis=0) > 0) else None, exact=False, tol=1e-9) if np.all(rows.astype('float64').std(axis=0) > 0) else None
         n = rows.shape[0]
         cm = [sum(r[s] for r in ex) / n for s in range(L)]
         cmp('center', lambda: pr.center(rows), [[float(v - cm[s]) for s, v in enumerate(r)] for r in ex], exact=False, tol=2e-6)
